@@ -49,7 +49,8 @@ Parse(bs, pos, len, bw, n) ==
                              need == n - Len(acc)
                              \* a decoder only needs the groups that hold values it returns
                              g == Min2(groups, (need + 7) \div 8)
-                         IN IF h.p + g * bw > end THEN Bad("hybrid-truncated-bp")
+                         IN IF bw > 0 /\ groups > len THEN Bad("hybrid-truncated-bp")      \* (also keeps groups * bw a small number)
+                            ELSE IF h.p + g * bw > end THEN Bad("hybrid-truncated-bp")
                             ELSE go(h.p + groups * bw, acc \o Unpack(bs, h.p, bw, Min2(8 * g, need)))
     IN go(pos, <<>>)
 
@@ -70,9 +71,25 @@ ParseRuns(bs, pos, len, bw) ==
                          ELSE go(h.p + vb, Append(acc, [k |-> "rle", n |-> h.v \div 2,
                                                         v |-> Mask(FromLE(Slice(bs, h.p, vb)), bw)]))
                     ELSE LET groups == h.v \div 2
-                         IN IF h.p + groups * bw > end THEN [ok |-> FALSE, runs |-> acc, p |-> p, why |-> "hybrid-truncated-bp"]
+                         IN IF (bw > 0 /\ groups > len) \/ h.p + groups * bw > end THEN [ok |-> FALSE, runs |-> acc, p |-> p, why |-> "hybrid-truncated-bp"]
+                            ELSE IF groups > 4096 THEN [ok |-> FALSE, runs |-> acc, p |-> p, why |-> "run-beyond-model"]
                             ELSE go(h.p + groups * bw, Append(acc, [k |-> "bp", vals |-> Unpack(bs, h.p, bw, 8 * groups)]))
     IN go(pos, <<>>)
+
+\* the stream is a sequence of complete runs (no values are materialised)
+WellFormed(bs, pos, len, bw) ==
+    LET end == pos + len
+        vb == ValBytes(bw)
+        RECURSIVE go(_)
+        go(p) ==
+            IF p >= end THEN TRUE
+            ELSE LET h == UvarNatParse(bs, p)
+                 IN IF ~h.ok \/ h.p > end THEN FALSE
+                    ELSE IF h.v % 2 = 0 THEN (IF h.p + vb > end THEN FALSE ELSE go(h.p + vb))
+                    ELSE LET groups == h.v \div 2
+                         IN IF bw > 0 /\ groups > len THEN FALSE
+                            ELSE IF h.p + groups * bw > end THEN FALSE ELSE go(h.p + groups * bw)
+    IN go(pos)
 
 \* ---- 32-bit variant: values are 4-limb words (W), any bw <= 32 ----
 SerRunW(r, bw) ==
@@ -99,12 +116,14 @@ ParseW(bs, pos, len, bw, n) ==
                     ELSE LET groups == h.v \div 2
                              need == n - Len(acc)
                              g == Min2(groups, (need + 7) \div 8)
-                         IN IF h.p + g * bw > end THEN Bad("hybrid-truncated-bp")
+                         IN IF bw > 0 /\ groups > len THEN Bad("hybrid-truncated-bp")
+                            ELSE IF h.p + g * bw > end THEN Bad("hybrid-truncated-bp")
                             ELSE go(h.p + groups * bw, acc \o UnpackW(bs, h.p, bw, Min2(8 * g, need), 4))
     IN go(pos, <<>>)
 
 ParsePrefixed(bs, pos, bw, n) ==
     IF pos + 4 > Len(bs) + 1 THEN Bad("level-prefix-truncated")
+    ELSE IF bs[pos + 3] >= 128 THEN Bad("level-block-truncated")      \* length >= 2^31: longer than any stream held here
     ELSE LET l == FromLE(Slice(bs, pos, 4))
          IN IF pos + 4 + l > Len(bs) + 1 THEN Bad("level-block-truncated")
             ELSE LET r == Parse(bs, pos + 4, l, bw, n)
